@@ -15,10 +15,16 @@ MatchAt(s, sub, p, j) ==
   ELSE IF s[p + j - 1] # sub[j] THEN FALSE ELSE MatchAt(s, sub, p, j + 1)
 
 (* leftmost position >= p at which sub occurs in s, 0 if none *)
-RECURSIVE Find(_,_,_)
-Find(s, sub, p) ==
+RECURSIVE FindRec(_,_,_)
+FindRec(s, sub, p) ==
   IF p + Len(sub) - 1 > Len(s) THEN 0
-  ELSE IF MatchAt(s, sub, p, 1) THEN p ELSE Find(s, sub, p + 1)
+  ELSE IF MatchAt(s, sub, p, 1) THEN p ELSE FindRec(s, sub, p + 1)
+(* the same function without recursion: TLC recursing once per byte needs 20 s for an 8 KiB line, the
+   comprehension none; on the short sequences of the model-checking configurations the recursion is faster *)
+FindSet(s, sub, p) ==
+  LET S == {i \in p..(Len(s) - Len(sub) + 1) : MatchAt(s, sub, i, 1)} IN
+  IF S = {} THEN 0 ELSE CHOOSE i \in S : \A j \in S : i <= j
+Find(s, sub, p) == IF Len(s) - p < 256 THEN FindRec(s, sub, p) ELSE FindSet(s, sub, p)
 
 EndsWith(s, suf) == Len(suf) <= Len(s) /\ SubSeq(s, Len(s) - Len(suf) + 1, Len(s)) = suf
 StartsWith(s, pre) == Len(pre) <= Len(s) /\ SubSeq(s, 1, Len(pre)) = pre
